@@ -5,7 +5,7 @@ package main
 // TCP on loopback, mutual TLS with a throw-away CA, only Heartbeat implemented) — and Connect()
 // builds its routing table.  For every island 1..N a swamp name hashing to that island is looked up
 // with GetServiceClientAndHost.  Reply: `1:j,2:j,…` with j = index of the entry whose host answered,
-// `-` when the client has no route, or `err`.  When some island of 1..N has no route the reply ends with
+// `-` when the client has no route; `timeout` when the client could not connect to the local stubs within the budget.  When some island of 1..N has no route the reply ends with
 // ` call=err|panic|ok`: what an SDK call (IsSwampExist) for a name of the first such island does.
 
 import (
@@ -165,10 +165,23 @@ func c20Routes(farm *c20Farm, nStr, ranges string) (out string) {
 			hostIdx[farm.hosts[j]] = j
 		}
 	}
-	cl := sdkclient.New(servers, N, 4<<20)
-	if err := cl.Connect(false); err != nil {
-		fmt.Fprintln(os.Stderr, "c20 routes: connect:", err)
-		return "err"
+	// Connect has its own fixed 5 s heartbeat deadline per server; on a loaded machine the TLS handshakes of six
+	// connections can exceed it.  The stub servers are local and always up, so a failed Connect is an environment
+	// problem: retry within a generous budget (early exit on success) and answer `timeout`, never `err`.
+	var cl sdkclient.Client
+	deadline := time.Now().Add(HxScale(60 * time.Second))
+	for attempt := 0; ; attempt++ {
+		cl = sdkclient.New(servers, N, 4<<20)
+		err := cl.Connect(false)
+		if err == nil {
+			break
+		}
+		cl.CloseConnection()
+		fmt.Fprintf(os.Stderr, "c20 routes: connect attempt %d: %v\n", attempt, err)
+		if time.Now().After(deadline) {
+			return "timeout"
+		}
+		time.Sleep(200 * time.Millisecond)
 	}
 	defer cl.CloseConnection()
 	var parts []string
@@ -185,7 +198,7 @@ func c20Routes(farm *c20Farm, nStr, ranges string) (out string) {
 	for i := uint64(1); i <= N; i++ {
 		if sc := cl.GetServiceClientAndHost(c20NameFor(N, i)); sc == nil || sc.Host == "" {
 			call = " call=" + c20Try(func() string {
-				ctx, cancel := context.WithTimeout(context.Background(), 3*time.Second)
+				ctx, cancel := context.WithTimeout(context.Background(), HxScale(20*time.Second))
 				defer cancel()
 				if _, err := hydraidego.New(cl).IsSwampExist(ctx, c20NameFor(N, i)); err != nil {
 					return "err"
